@@ -50,3 +50,8 @@ template <> Teakra::RegisterState &br_obj<Teakra::RegisterState>() { return rig(
 #define BR_STORE(self) rig().store(self)
 #define BR_OBJ(C) br_obj<C>()
 #include "proc_wrappers.inc"
+
+// free functions of common_types.h that the extracted closure calls by name
+#ifdef BRIDGE_FN_BitReverse
+extern "C" u16 cx::BitReverse(u16 value) { return ::BitReverse(value); }
+#endif
